@@ -10,7 +10,7 @@ def ctor_name(cfg):
     return cfg.get("meta", {}).get("container_constructor", "NewGontainer")
 
 
-def run_batch(ctx, items, race=False, tag="b"):
+def run_batch(ctx, items, race=False, tag="b", local=False):
     """items: list of (cfg_or_files, ops). cfg dicts get meta.pkg forced to a non-main package.
     returns list of dicts {accepted, cli_out, impl:[…]|None, model:[…]|None, files}"""
     root = os.path.join(ctx.scratch(), "lb_" + tag)
@@ -32,6 +32,9 @@ def run_batch(ctx, items, race=False, tag="b"):
                 cn = f.get("meta", {}).get("container_constructor", cn)
         name = "%s%04d" % (tag, i)
         rc, so, path = mod.gen_pkg(name, files, env=ENV)
+        if local and rc == 0:
+            m_ = __import__("re").search(r"^package (\w+)", open(path).read(), __import__("re").M)
+            mod.add_local(name, m_.group(1))
         rec = {"accepted": rc == 0, "cli_out": so, "files": files, "ops": ops, "name": name, "impl": None, "model": None}
         if rc == 0:
             pkgs.append((name, cn))
